@@ -3,6 +3,7 @@ an observer account with the full protocol stack, one or two contacts that reins
 the common server double.  The manager / receive-layer entry points of the observer are wrapped (observation
 only) to obtain the micro-events the model speaks about; after each the identities and sessions tables are
 compared with the model, and the property's clauses are evaluated on the real run."""
+import os
 import random
 
 import boot  # noqa: F401
@@ -17,6 +18,7 @@ RULE = ("histories of 4..14 events over {contact reinstalls with a fresh identit
         "automatic trust switched on/off} for an observer and 1-2 contacts (2-3 accounts), each followed by a randomly scheduled run of the "
         "server double to quiescence; every create_session / handleEncMessage / encrypt of the observer is one model event; "
         "stream 'author': every chat shape x participant x envelope kind: the real getAuthor against the model's author. distinct = distinct history.")
+RULE += (" Histories with 'fault' events: the n-th statement of the observer's store fails once (database is locked) when keys / messages arrive; after a fault only the safety clauses are checked.")
 ASSUMPTIONS = ["python-axolotl's SessionBuilder refuses an identity the store does not trust and saves the identity it accepts (exercised, not modelled)",
                "an install that was replaced never comes back (restoring an old identity would revive archived ratchet states, which the property does not speak about)"]
 
@@ -143,6 +145,20 @@ def cases(chk):
                 yield "author", {"chat": chat, "participant": part, "enc": et}
     for c in corpus:
         yield "history", c
+    # transient storage faults (another process holds the store's lock): the n-th statement of the observer's store fails once, right when a
+    # changed identity is presented — a lookup that fails is not "contact never seen"
+    for n in range(1, 9):
+        for how in ("send", "recv", "notify"):
+            yield "history", {"auto": False, "contacts": 1, "events": [["send", 0], ["recv", 0], ["reinstall", 0], ["fault", n], [how, 0], [how, 0], ["send", 0]]}
+    for _ in range(chk.scale(30, 1000)):
+        nc = r.choice([1, 1, 2])
+        evs = [["send", 0], ["recv", r.randrange(nc)]]
+        for _i in range(r.randint(3, 9)):
+            k = r.choice(["send", "recv", "reinstall", "reinstall", "notify", "restart"])
+            if r.random() < 0.5:
+                evs.append(["fault", r.randint(1, 10)])
+            evs.append([k, r.randrange(nc)] if k != "restart" else [k])
+        yield "history", {"auto": r.random() < 0.25, "contacts": nc, "events": evs}
     # the same histories with the setting stored as other values of the same truth value (0, None, "" / 1, "yes")
     for i, c in enumerate(corpus):
         yield "history", dict(c, flavour=1 + i % 3)
@@ -279,6 +295,11 @@ def run_case(chk, stream, case):
     d.ask("trust reset")
     del TRACE[:]
     WATCH["world"] = None
+    from lib import sqlfault
+    has_faults = any(ev[0] == "fault" for ev in case["events"])
+    if has_faults:
+        sqlfault.install()
+    faulted = False        # a storage fault has fired: from then on only the safety clauses are checked (a refused or lost message is a fault's fair outcome)
     w = World(chk, case, chk.rng.randrange(1 << 30))
     WATCH["phone"] = OBSERVER_PHONE
     WATCH["world"] = w
@@ -299,6 +320,8 @@ def run_case(chk, stream, case):
             _DEPTH["calls"] = 0
             pins_before = [A.stored_identity(CONTACT_PHONES[ci]) for ci in range(case["contacts"])]
             expect_at = None       # (client, body) that must be delivered exactly once
+            if has_faults and kind in ("restart", "reinstall", "auto"):
+                sqlfault.disarm()      # (faults are placed at message / key events: a store that cannot be opened is another matter)
             if kind == "reinstall":
                 w.reinstall(ev[1])
             elif kind == "send":
@@ -341,6 +364,17 @@ def run_case(chk, stream, case):
                 A.set_autotrust(flavour(case, auto))
                 if not diverged:
                     d.ask("trust ev setAuto %d" % (1 if auto else 0))
+            elif kind == "fault":
+                # a transient storage fault: the ev[1]-th statement the observer's store issues from now on fails once ("database is locked")
+                sqlfault.arm(os.path.basename(os.path.dirname(A.dbpath())), ev[1])
+                continue
+            if has_faults and sqlfault.fired():
+                chk.hit("fault-fired:" + sqlfault.fired().split()[0].upper())
+                faulted = True
+                diverged = True            # (faults are outside the model: the real run goes on alone)
+                del w.srv.raised[:]         # the fault surfacing as an exception is a refusal
+            if has_faults and kind != "fault":
+                sqlfault.disarm()
             if w.srv.raised:
                 j, e, tb = w.srv.raised[0]
                 if isinstance(e, EndlessHandling):
@@ -433,6 +467,8 @@ def run_case(chk, stream, case):
                         fails.append(oracle("C17:message-readable-by-unpinned-identity", "%s: the observer's message %r was delivered to install #%d of contact %d "
                                             "although identity #%s is the remembered one" % (ctx, body, len(w.installs[ci]), ci, w.key_no(ci, pin))))
                         break
+                    if faulted:
+                        continue
                     if auto and got_n != 1:
                         fails.append(oracle("C17:autotrust-messaging-does-not-resume", "%s: with automatic trust on the observer's message %r reached the contact's current "
                                             "install %d times" % (ctx, body, got_n)))
@@ -445,6 +481,8 @@ def run_case(chk, stream, case):
                         fails.append(oracle("C17:message-accepted-from-unpinned-identity", "%s: message %r from install #%d of contact %d was delivered although identity #%s "
                                             "is the remembered one" % (ctx, body, len(w.installs[ci]), ci, w.key_no(ci, pin))))
                         break
+                    if faulted:
+                        continue
                     if (auto or cur_is_pinned) and got_n != 1:
                         fails.append(oracle("C17:incoming-message-lost", "%s: message %r from the contact's current install (automatic trust %s) was delivered %d times"
                                             % (ctx, body, "on" if auto else "off", got_n)))
@@ -464,6 +502,8 @@ def run_case(chk, stream, case):
                             "stanzas: %s" % (case["auto"], case["contacts"], hist, e, sorted(kinds.items(), key=lambda kv: -kv[1])[:4])))
     finally:
         WATCH["world"] = None
+        if has_faults:
+            sqlfault.uninstall()
         for lst in w.installs:
             for c in lst:
                 if c.stack is not None:
